@@ -366,7 +366,9 @@ Definition pm_dispatch (f : frame) (valid : bool) : M unit :=
   | TResend => process_resend f
   | TSeqReset | TLogon | THb => ret tt
   | TTest => send_msg (mkF THb 0 false (f_a f) 0)
-  | TApp | TLogout => if valid then deliver (f_seq f) else ret tt
+  | TApp | TLogout =>
+      (* a frame numbered below the expected number (tolerated while a resend is awaited) is not delivered again *)
+      w <- get ;; if valid && (f_seq f =? nin w) then deliver (f_seq f) else ret tt
   end.
 
 Definition process_message (f : frame) : M unit :=
